@@ -122,6 +122,7 @@ class KInterp:
         self.opaque_calls = opaque_calls
         self.notes = []
         self.pit = {}            # (pit, rowkey, idxmod, col) -> value written during interpretation
+        self.pit_early_writes = []
         self.pit_order = []
         self.res_writes = []     # stores into result tables
         self.pit_fullinit = {}   # pit name -> template text, once `pit[:, :] = ...` was executed
@@ -491,6 +492,7 @@ class KInterp:
                 pit = self._pitname(old, t.value)
                 self.pit_fullinit[pit] = U(value_expr) if value_expr is not None else "<value>"
                 for k_ in [k_ for k_ in self.pit if k_[0] == pit and k_[1] == OWN]:
+                    self.pit_early_writes.append(k_)        # a column written before the full-row template (and overwritten by it)
                     del self.pit[k_]
                 return
             if isinstance(sl, ast.Tuple) and len(sl.elts) == 2 and self._resolve_col(sl.elts[1], st) is not None:
@@ -1535,6 +1537,7 @@ class KInterp:
                       self.dyn_cls)
         sub.pit, sub.pit_order, sub.res_writes = self.pit, self.pit_order, self.res_writes
         sub.pit_fullinit = self.pit_fullinit
+        sub.pit_early_writes = self.pit_early_writes
         sub.user_data_writes = self.user_data_writes
         sub.soft_calls = getattr(self, "soft_calls", False)
         sub.internal_lookup_reads = self.internal_lookup_reads
